@@ -1,4 +1,4 @@
-import KsVerif.Http.H1
+import KsVerif.Http.H2
 import KsVerif.Base.Verdict
 
 namespace KsVerif.Http.Driver
@@ -68,6 +68,36 @@ def judgeConv (payload impl : String) : Verdict :=
         { corr := !tags.isEmpty || implStripped == some m.toStr, implSpec := !crashed && implStripped == some want.toStr,
           modelSpec := m.toStr == want.toStr, tags, nontrivial := conv.length ≥ 1,
           cls := s!"n={min conv.length 4}", model := m.toStr, spec := want.toStr }
+  | _ => .bad "bad-case"
+
+/-! ### HTTP/2 -/
+
+def h2FrameOfSx : Sx → Option H2.Frame
+  | .list [.atom "h", sid, e, hs, _pieces] => do
+    some (.headers (← sid.asNat?) (← headersOfSx hs) (← e.asBool?))
+  | .list [.atom "d", sid, e, p] => do some (.data (← sid.asNat?) (← p.asBytes?) (← e.asBool?))
+  | .list [.atom "dz", sid, e, len, fill] => do
+    some (.data (← sid.asNat?) (List.replicate (← len.asNat?) (UInt8.ofNat (← fill.asNat?))) (← e.asBool?))
+  | .list [.atom "o", _, sid] => sid.asNat?.map .other
+  | _ => none
+
+def judgeH2 (payload impl : String) : Verdict :=
+  match Sx.parse payload with
+  | some (.list [.list (.atom "c" :: cfs), .list (.atom "s" :: sfs)]) =>
+    match cfs.mapM h2FrameOfSx, sfs.mapM h2FrameOfSx with
+    | some cf, some sf =>
+      let m := H2.observe cf sf
+      let want := H2.Spec.expected cf sf
+      let crashed := (impl.splitOn "panic").length > 1 || (impl.splitOn "crash").length > 1 || (impl.splitOn "timeout").length > 1
+      -- gRPC marked on one direction only, and the other direction completes the pair
+      let sids := H2.Spec.streamIds cf
+      let oneSided := sids.any fun sid =>
+        H2.grpcMarked (H2.Spec.streamHeaders (H2.Spec.ofStream sid cf)) != H2.grpcMarked (H2.Spec.streamHeaders (H2.Spec.ofStream sid sf))
+      let tags : List String := if oneSided then [] else []
+      { corr := m.toStr == impl, implSpec := !crashed && want.toStr == impl, modelSpec := m.toStr == want.toStr, tags,
+        nontrivial := !cf.isEmpty && !sf.isEmpty, cls := s!"streams={min sids.length 4}",
+        model := m.toStr, spec := want.toStr }
+    | _, _ => .bad "bad-case"
   | _ => .bad "bad-case"
 
 end KsVerif.Http.Driver
